@@ -105,6 +105,27 @@ def stmt(s):
         return [], ["let _g = %s.lock(&mut key);" % o]
     if k == "n_lock_shared_ref_key":
         return [], ["let _g = %s.lock(&key);" % o]
+    if k == "n_scoped_shared_ref_key":
+        return [], ["%s.scoped_lock(&key, |_d| {});" % o]
+    if k == "n_scoped_try_escape":
+        st = {"m1": "scoped_try_lock", "rw_w": "scoped_try_write", "rw_r": "scoped_try_read"}.get(x, "scoped_try_lock")
+        return [], ["let r = %s.%s(&mut key, |d| d).ok().unwrap();" % (o, st), USE_R[x]]
+    if k == "n_clone_hold":
+        if x == "mutexref":
+            return [], ["let g = ct.lock(key);", "let _h: happylock::mutex::MutexRef<'_, i32, _> = Clone::clone(&g.0);"]
+        pre = "let owr = OwnedLockCollection::new((RwLock::new(0i32), RwLock::new(1i32)));"
+        if x == "readref":
+            return [], [pre, "let g = owr.read(key);",
+                        "let _h: happylock::rwlock::RwLockReadRef<'_, i32, _> = Clone::clone(&g.0);"]
+        return [], [pre, "let g = owr.lock(key);",
+                    "let _h: happylock::rwlock::RwLockWriteRef<'_, i32, _> = Clone::clone(&g.0);"]
+    if k == "n_clone_guard":
+        ty = {"m1": "happylock::mutex::MutexGuard<'_, i32, _>", "rw_r": "happylock::rwlock::RwLockReadGuard<'_, i32, _>",
+              "rw_w": "happylock::rwlock::RwLockWriteGuard<'_, i32, _>", "ct": "happylock::collection::LockGuard<_>",
+              "pm": "happylock::poisonable::PoisonGuard<'_, _>"}[x]
+        lock = {"m1": "m1.lock(key)", "rw_r": "rw.read(key)", "rw_w": "rw.write(key)", "ct": "ct.lock(key)",
+                "pm": "pm.lock(key).unwrap()"}[x]
+        return [], ["let g = %s;" % lock, "let _h: %s = Clone::clone(&g);" % ty]
     if k == "n_guard_field":
         return [], ["let _k = g.%s;" % KEYFIELD[x]]
     if k == "n_scope_spawn_guard":
@@ -163,7 +184,7 @@ def stmt(s):
 C14_CLASSES = {"n_lock_moved_key", "n_nested_scoped_same_key", "n_lock_in_scoped", "n_spawn_key", "n_scope_spawn_key",
                "n_share_key_lock", "n_clone_key", "n_copy_key", "n_lock_borrowed_key", "n_lock_shared_ref_key",
                "n_guard_field", "n_scope_spawn_guard", "n_move_hold_out", "n_take_holds", "n_forge_key",
-               "n_impl_keyable", "n_impl_sealed"}
+               "n_impl_keyable", "n_impl_sealed", "n_scoped_shared_ref_key", "n_clone_hold", "n_clone_guard"}
 
 
 def render_prog(p):
